@@ -1,7 +1,7 @@
 (* Proofs/GlyphProofs.v — glyf simple glyphs: SimpleGlyph::write followed by Glyph::read gives the
    glyph back (flags reduced to ON_CURVE_POINT, the writer's normalisation). *)
 From AV Require Import Base.Prelude Base.Lemmas Gen.ReaderPrims Model.Reader Model.ReaderExt
-  Proofs.ReaderProofs Proofs.EncodeProofs Model.Layout Proofs.LayoutProofs Proofs.RecordProofs
+  Proofs.ReaderProofs Proofs.EncodeProofs Model.TableLayout Proofs.TableLayoutProofs Proofs.RecordProofs
   Gen.TableLayouts Model.Tables Model.Cff Proofs.TableProofs Proofs.ArrayTableProofs Proofs.CffProofs Proofs.RefusalProofs.
 From Coq Require Import ZifyBool ZifyNat.
 Ltac Zify.zify_post_hook ::= Z.div_mod_to_equations.
